@@ -8,7 +8,7 @@ followed by lint --json.
 import json
 import shutil
 
-from .. import annot
+from .. import annot, trees
 from ..models import notice
 from ..monitors import Contracts, run_cli
 from ..util import Res, rng_for, short_hash
@@ -26,7 +26,7 @@ ASSUMPTIONS = ["grey (own class, asserted only for 'no holder text lost'): holde
 MIN_NONTRIVIAL = {"quick": 5000, "thorough": 200000}
 
 NAMES = ["Jane Doe", "John Smith", "Zoë Müller", "名前 太郎", "O'Neil", "J. R. R. Tolkien", "van der Berg", "Ægir Þórsson", "X Æ A-12"]
-ORGS = ["Example Corp.", "ACME, Inc.", "Free Software Foundation Europe e.V.", "AT&T", "Foo-Bar GmbH & Co. KG", "The {project} Authors",
+ORGS = ["Example Corp.", "ACME, Inc.", "Acme Inc", "Medical dnl", "SYSTEM REM", "Free Software Foundation Europe e.V.", "AT&T", "Foo-Bar GmbH & Co. KG", "The {project} Authors",
         "Team [core]", "3M Company", "Université de Montréal", "Initech (UK) Ltd", "a/b/c collective", "Déjà Vu S.à r.l.", "Yahoo!", "E*TRADE"]
 SUFFIXES = ["", "", " <jane@example.com>", " <https://example.com>", " (https://example.org/team)", ", and contributors", " et al."]
 YEAR_FORMS = [None, "2020", "1999-2024", "2001 - 2003", "1987"]
@@ -56,7 +56,12 @@ def generate(tier, seed):
     return cases
 
 
+FILE_KINDS = [(".py", "python"), (".py", "python"), (".c", "c"), (".html", "html"), (".f", "f"), (".f90", "f90"), (".bat", "bat"), (".m4", "m4"),
+              (".tex", "tex"), (".ml", "ml"), (".hs", "haskell"), (".lisp", "lisp")]
+
+
 def setup(ctx):
+    ctx.state["styles"] = trees.style_table()
     import reuse.copyright as rc
     import reuse.extract as ex
 
@@ -247,8 +252,12 @@ def run_cli_case(case, ctx, res):
     try:
         for j in range(case["n"]):
             res.n += 1
-            f = root / f"f{j}.py"
+            # the comment style is part of how a notice is written down and read again: letters as markers (c, REM, dnl), '!', '%'
+            ext, short = rng.choice(FILE_KINDS)
+            f = root / f"f{j}{ext}"
+            stl = ctx.state["styles"][short]
             hs = holders(rng, rng.randint(1, 2))
+            with_licence = rng.random() < 0.7
             merge = rng.random() < 0.6
             steps = rng.randint(1, 4) if merge else 1
             # a history: plain runs (and a header written by hand) pile up lines, the last run merges them
@@ -264,10 +273,10 @@ def run_cli_case(case, ctx, res):
                         line = notice.build(rng.choice(list(notice.PREFIXES)), y, h)
                         pre.append(line)
                         stated.setdefault(h, []).extend(notice.decompose(line)[1] or [])
-                body = "".join(f"# {x}\n" for x in pre) + "#\n# SPDX-License-Identifier: MIT\n\n" + body
+                body = trees.comment_block(stl, pre + (["", "SPDX-License-Identifier: MIT"] if with_licence else [])) + "\n\n" + body
                 res.cell("cli-handwritten-start")
             f.write_text(body)
-            template = rng.choice(["custom", "nocontrib", "commented"]) if rng.random() < 0.3 else None
+            template = rng.choice(["custom", "nocontrib"] + (["commented"] if short == "python" else [])) if rng.random() < 0.3 else None
             if template:
                 annot.install_templates(root, [template])
                 res.cell("cli-template:" + template)
@@ -282,7 +291,7 @@ def run_cli_case(case, ctx, res):
                     years.append(str(rng.randint(1990, 2030)))
                 if s and rng.random() < 0.3:
                     key = last_key
-                args = ["--no-multiprocessing", "--root", str(root), "annotate", "--copyright-prefix", key, "-l", "MIT"]
+                args = ["--no-multiprocessing", "--root", str(root), "annotate", "--copyright-prefix", key] + (["-l", "MIT"] if with_licence else [])
                 if template:
                     args += ["--template", annot.template_arg(template)]
                 for h in hs:
